@@ -6,30 +6,40 @@
 #define EP_NMAX 4096
 #endif
 
+/* native replay / random search only: fold a drawn value into the range the
+ * proof assumes, so that a replayed or random run is not rejected as
+ * "precondition not met" (proof mode: no effect) */
+#if VERIF_IS_NATIVE
+#define EP_FOLD(x, lo, hi) if ((x) < (lo) || (x) > (hi)) x = (lo) + (size_t)(x) % ((size_t)(hi) - (size_t)(lo) + 1u);
+#else
+#define EP_FOLD(x, lo, hi)
+#endif
+
 #define EP_GHOSTS() \
   GHOST_HAVOC(); \
   IN(size_t, in_src_pos) IN(size_t, in_snk_pos) IN(size_t, in_b) \
   IN(size_t, in_src_nhard) IN(size_t, in_snk_nhard) \
   IN(uint8_t, in_val) IN(uint8_t, in_snk_val) IN(int, in_src_err) IN(int, in_snk_err) \
+  EP_FOLD(in_src_pos, 0, SIZE_MAX / 2) EP_FOLD(in_snk_pos, 0, SIZE_MAX / 2) \
   g_src_pos = in_src_pos; g_snk_pos = in_snk_pos; g_b = in_b; \
   g_src_nhard = in_src_nhard; g_snk_nhard = in_snk_nhard; \
   g_val = in_val; g_snk_val = in_snk_val; g_src_err = in_src_err; g_snk_err = in_snk_err;
 
 /* a Source / Sink of either kind, set up through the library's constructors */
 #define EP_SOURCE(s) \
-  IN(int, in_src_kind) ASSUME(in_src_kind == 0 || in_src_kind == 1); \
+  IN(int, in_src_kind) EP_FOLD(in_src_kind, 0, 1) ASSUME(in_src_kind == 0 || in_src_kind == 1); \
   Source s; \
   if (in_src_kind == 0) octet_source_init(&s, ep_octet_source, EP_SRC_DRIVER); \
   else chunk_source_init(&s, ep_chunk_source, EP_SRC_DRIVER);
 #define EP_SINK(s) \
-  IN(int, in_snk_kind) ASSUME(in_snk_kind == 0 || in_snk_kind == 1); \
+  IN(int, in_snk_kind) EP_FOLD(in_snk_kind, 0, 1) ASSUME(in_snk_kind == 0 || in_snk_kind == 1); \
   Sink s; \
   if (in_snk_kind == 0) octet_sink_init(&s, ep_octet_sink, EP_SNK_DRIVER); \
   else chunk_sink_init(&s, ep_chunk_sink, EP_SNK_DRIVER);
 
 /* a count: any value whose buffer the harness can supply, or an invalid one */
 #define EP_COUNT(in_n) \
-  IN(size_t, in_n) ASSUME(in_n <= EP_NMAX || in_n > (size_t)SSIZE_MAX);
+  IN(size_t, in_n) if (in_n <= (size_t)SSIZE_MAX) { EP_FOLD(in_n, 0, EP_NMAX) } ASSUME(in_n <= EP_NMAX || in_n > (size_t)SSIZE_MAX);
 /* a count for the plumbing loops: arbitrary in the proof; the native replay
  * folds huge counts down so that a replayed run ends */
 #if VERIF_IS_NATIVE
@@ -50,7 +60,7 @@ void h_source_get_octet(void)
 void h_source_adapt(void)
 {
   EP_GHOSTS()
-  IN(size_t, in_n) ASSUME(in_n <= EP_NMAX);
+  IN(size_t, in_n) EP_FOLD(in_n, 0, EP_NMAX) ASSUME(in_n <= EP_NMAX);
   IN_MEM(in_buf, in_n)
   source_adapt(ep_octet_source, EP_SRC_DRIVER, in_buf, in_n);
   VERIF_CANARY();
@@ -59,7 +69,7 @@ void h_source_adapt(void)
 void h_once_source_get_chunk(void)
 {
   EP_GHOSTS() EP_SOURCE(s)
-  IN(size_t, in_n) ASSUME(in_n <= EP_NMAX);
+  IN(size_t, in_n) EP_FOLD(in_n, 0, EP_NMAX) ASSUME(in_n <= EP_NMAX);
   IN_MEM(in_buf, in_n)
   once_source_get_chunk(&s, in_buf, in_n);
   VERIF_CANARY();
@@ -68,7 +78,7 @@ void h_once_source_get_chunk(void)
 void h_source_get_chunk_atmost(void)
 {
   EP_GHOSTS() EP_SOURCE(s)
-  IN(size_t, in_n) ASSUME(in_n <= EP_NMAX);
+  IN(size_t, in_n) EP_FOLD(in_n, 0, EP_NMAX) ASSUME(in_n <= EP_NMAX);
   IN_MEM(in_buf, in_n)
   source_get_chunk_atmost(&s, in_buf, in_n);
   VERIF_CANARY();
@@ -94,7 +104,7 @@ void h_sink_put_octet(void)
 void h_sink_adapt(void)
 {
   EP_GHOSTS()
-  IN(size_t, in_n) ASSUME(in_n <= EP_NMAX);
+  IN(size_t, in_n) EP_FOLD(in_n, 0, EP_NMAX) ASSUME(in_n <= EP_NMAX);
   IN_MEM(in_buf, in_n)
   sink_adapt(ep_octet_sink, EP_SNK_DRIVER, in_buf, in_n);
   VERIF_CANARY();
@@ -103,7 +113,7 @@ void h_sink_adapt(void)
 void h_once_sink_put_chunk(void)
 {
   EP_GHOSTS() EP_SINK(k)
-  IN(size_t, in_n) ASSUME(in_n <= EP_NMAX);
+  IN(size_t, in_n) EP_FOLD(in_n, 0, EP_NMAX) ASSUME(in_n <= EP_NMAX);
   IN_MEM(in_buf, in_n)
   once_sink_put_chunk(&k, in_buf, in_n);
   VERIF_CANARY();
@@ -112,7 +122,7 @@ void h_once_sink_put_chunk(void)
 void h_sink_put_chunk_atmost(void)
 {
   EP_GHOSTS() EP_SINK(k)
-  IN(size_t, in_n) ASSUME(in_n <= EP_NMAX);
+  IN(size_t, in_n) EP_FOLD(in_n, 0, EP_NMAX) ASSUME(in_n <= EP_NMAX);
   IN_MEM(in_buf, in_n)
   sink_put_chunk_atmost(&k, in_buf, in_n);
   VERIF_CANARY();
@@ -200,6 +210,7 @@ void h_sts_drain(void)
  * any buffer state offset <= used <= size <= EP_NMAX, exact-size storage */
 #define EP_AUX(b) \
   IN(size_t, in_size) IN(size_t, in_used) IN(size_t, in_offset) \
+  EP_FOLD(in_size, 1, EP_NMAX) EP_FOLD(in_used, 0, in_size) EP_FOLD(in_offset, 0, in_used) \
   ASSUME(in_size >= 1 && in_size <= EP_NMAX && in_offset <= in_used && in_used <= in_size); \
   IN_MEM(in_data, in_size) \
   ByteBuffer b = { in_data, in_size, in_used, in_offset };
